@@ -78,10 +78,16 @@ impl StepOracle for SimExecOracle {
             return Verdict::Pass;
         }
         let pr = &w.pairs[pair];
-        let exact_delivery = delivered.iter().filter(|(_, a)| *a > 0).count() == 1 && delivered.iter().any(|(i, a)| *i == offer.info && *a == offer.amount.u128());
-        if !exact_delivery {
+        // the offer arrives exactly, and nothing else that is an asset of THIS pair comes with it (a coin of the
+        // pair's other denom changes the reserves the swap prices on; a stray coin of any other denom does not)
+        let offer_exact = delivered.iter().filter(|(i, _)| *i == offer.info).map(|(_, a)| *a).sum::<u128>() == offer.amount.u128() && offer.amount.u128() > 0;
+        let other_pair_asset = delivered.iter().any(|(i, a)| *a > 0 && *i != offer.info && pr.infos.contains(i));
+        if !offer_exact || other_pair_asset {
             classes.push("q:skipped-extra-funds");
             return Verdict::Pass;
+        }
+        if delivered.iter().any(|(i, a)| *a > 0 && *i != offer.info) {
+            classes.push("q:stray-coin-attached");
         }
         let (qp, side, qa, sim) = match self.quoted.take() {
             Some(q) => q,
